@@ -6,7 +6,7 @@ from ..engines import expandverified as X
 def run(ctx):
     # language-level slips in the modules the property is anchored in (engine Y)
     from ..engines import gotchas as GY
-    GY.run(ctx, ('strategies.rule', 'strategies.strategy', 'specification', 'rule_db.forest', 'comb_spec_searcher'))
+    GY.run(ctx, ('strategies.rule', 'strategies.strategy', 'specification', 'rule_db.forest', 'comb_spec_searcher', 'strategies.strategy_pack'))
     ctx.floor("Y", 1)
     ctx.extra["explanation"] = (
         "static analysis (ast, no execution) of expand_verified / expand_comb_class and of the "
@@ -61,3 +61,10 @@ def run(ctx):
     from ..engines import sizecheck as SCC
     SCC.s0_compositions(ctx)
     ctx.floor("S0", 4)
+    # the inner search files verification rules with their dependency children (round 10)
+    from ..engines import sizecheck as SC19
+    SC19.s4_forest_keys(ctx)
+    ctx.floor("S4", 4)
+    from ..engines import provenance as PV13
+    PV13.a13_add_rule_bookkeeping(ctx)
+    ctx.floor("A13", 3)
